@@ -223,7 +223,27 @@ pub fn reencoder_case(enc: Enc, bytes: &[u8], in_cap: usize, out_buf: usize, via
     }
 }
 
+static THOROUGH: std::sync::atomic::AtomicBool = std::sync::atomic::AtomicBool::new(false);
+
+fn thorough_flag() -> bool {
+    THOROUGH.load(std::sync::atomic::Ordering::Relaxed)
+}
+
+/// Child-process entry: the exhaustive re-encoder stage, isolated so that an
+/// abort inside the decoder (e.g. a failed unsafe precondition) is attributed
+/// to this stage instead of killing the whole check.
+pub fn enum_main(args: &[String]) -> i32 {
+    let tier = args.iter().position(|a| a == "--tier").and_then(|p| args.get(p + 1)).cloned().unwrap_or_else(|| "quick".into());
+    let seed = args.iter().position(|a| a == "--seed").and_then(|p| args.get(p + 1)).and_then(|s| s.parse().ok()).unwrap_or(0);
+    let ctx = Ctx::new("C07", &tier, seed);
+    let mut acc = Acc::default();
+    exhaustive_reencoder(&ctx, &mut acc);
+    println!("XTV-ACC {}", serde_json::to_string(&acc.to_json()).unwrap());
+    0
+}
+
 fn exhaustive_reencoder(ctx: &Ctx, acc_total: &mut Acc) {
+    THOROUGH.store(ctx.thorough(), std::sync::atomic::Ordering::Relaxed);
     // work items: (kind, enc, index)
     #[derive(Clone, Copy)]
     enum W {
@@ -231,6 +251,7 @@ fn exhaustive_reencoder(ctx: &Ctx, acc_total: &mut Acc) {
         PairsOfLead(Enc, u16),          // all 1024 pairs of one lead surrogate
         Utf32Plane(Enc, u32, bool),     // all scalar values of one plane
         Ill16(Enc, u16),                // ill-formed classes around one surrogate value block
+        SurrogateSquare(Enc, u16),      // one first surrogate unit x EVERY second surrogate unit
         Ill32(Enc, u32),
     }
     let mut work: Vec<W> = vec![];
@@ -242,6 +263,13 @@ fn exhaustive_reencoder(ctx: &Ctx, acc_total: &mut Acc) {
         }
         for blk in 0..32u16 {
             work.push(W::Ill16(enc, 0xD800 + blk * 64));
+        }
+        // every ordered pair of surrogate units: the 1 048 576 well-formed pairs are
+        // covered above; the other 3 145 728 are ill-formed (quick: every 16th first unit)
+        for first in 0xD800u16..0xE000 {
+            if thorough_flag() || matches!(first, 0xD800 | 0xDBFF | 0xDC00 | 0xDFFF) || first % 16 == (first >> 4) % 16 {
+                work.push(W::SurrogateSquare(enc, first));
+            }
         }
     }
     for enc in [Enc::U32Le, Enc::U32Be] {
@@ -311,6 +339,21 @@ fn exhaustive_reencoder(ctx: &Ctx, acc_total: &mut Acc) {
                 }
                 if plane == 0 {
                     reencoder_case(enc, &b, 8192, 0, true, "plane_detected", acc);
+                }
+            }
+            W::SurrogateSquare(enc, first) => {
+                acc.distinct(&(enc.name(), "square", first));
+                for second in 0xD800u16..0xE000 {
+                    let well_formed = first < 0xDC00 && second >= 0xDC00;
+                    if well_formed {
+                        continue;
+                    }
+                    let mut b = vec![];
+                    for u in [0x61u16, first, second, 0x62] {
+                        enc.unit16(u, &mut b);
+                    }
+                    acc.add("illformed_surrogate_pairs_enumerated", 1);
+                    reencoder_case(enc, &b, 1 + (second as usize % 4), 1 + (second as usize % 9), false, "surrogate_unit_pair", acc);
                 }
             }
             W::Ill16(enc, start) => {
@@ -411,12 +454,12 @@ pub fn run(ctx: &Ctx) -> i32 {
             }
         }
     });
-    exhaustive_reencoder(ctx, &mut acc);
-    let rule = format!("(a) {} generated YAML streams (1-3 documents, hostile scalars, every spelling feature) x one encoding in turn x [BOM, no BOM when the text starts with ASCII] x [slice, reader fixed(1..9), reader random] x [explicit, detected], compared with the same text in UTF-8; (b) exhaustive at the re-encoder hook: all 63 488 non-surrogate UTF-16 units, all 1 048 576 surrogate pairs, all 1 112 064 UTF-32 scalar values, both byte orders, with/without BOM, input buffer capacities and output buffer sizes varied ({} variants each), against a std-based reference decoder; ill-formed classes: every surrogate value as lone lead / lead+non-trail / lead+lead / lone trail / reversed pair, truncated units, every UTF-32 value in D800..DFFF, values >= 0x110000; distinct non-trivial = distinct texts plus distinct enumeration blocks", n_texts, if ctx.thorough() { 11 } else { 2 });
+    ev::run_isolated("c07-enum", &["--tier".into(), ctx.tier.clone(), "--seed".into(), ctx.seed.to_string()], "exhaustive re-encoder enumeration", &mut acc);
+    let rule = format!("(a) {} generated YAML streams (1-3 documents, hostile scalars, every spelling feature) x one encoding in turn x [BOM, no BOM when the text starts with ASCII] x [slice, reader fixed(1..9), reader random] x [explicit, detected], compared with the same text in UTF-8; (b) exhaustive at the re-encoder hook: all 63 488 non-surrogate UTF-16 units, all 1 048 576 surrogate pairs, all 1 112 064 UTF-32 scalar values, both byte orders, with/without BOM, input buffer capacities and output buffer sizes varied ({} variants each), against a std-based reference decoder; ill-formed classes: EVERY ordered pair of surrogate units that is not a well-formed pair (thorough: all 3 145 728; quick: a sixteenth of the first units x all second units), every surrogate value as lone lead / lead+non-trail / lead+lead / lone trail / reversed pair, truncated units, every UTF-32 value in D800..DFFF, values >= 0x110000; distinct non-trivial = distinct texts plus distinct enumeration blocks", n_texts, if ctx.thorough() { 11 } else { 2 });
     let mut extra = serde_json::Map::new();
     extra.insert("reencoder_enumeration_complete".into(), json!(true));
     ev::finish(
-        Finish { ctx, level: "exploration", rule, assumptions: vec!["reference decoder: char::decode_utf16 / char::from_u32 from the standard library".into(), "for failing texts only the verdict class and prefix-comparable output are compared (error positions are byte offsets of what the parser saw)".into()], extra, exhaustive: false, min_distinct: 1000, must_reach: vec![("surrogate_pairs_enumerated".into(), 2 * 1_048_576), ("utf32_scalars_enumerated".into(), 2 * 1_112_064), ("illformed_streams".into(), 10000), ("translation_level_slice".into(), 1000), ("ascii_only_texts".into(), 20), ("detected_variants".into(), 500), ("YAML_SLICE_REENCODE_PATH".into(), 500)] },
+        Finish { ctx, level: "exploration", rule, assumptions: vec!["reference decoder: char::decode_utf16 / char::from_u32 from the standard library".into(), "for failing texts only the verdict class and prefix-comparable output are compared (error positions are byte offsets of what the parser saw)".into()], extra, exhaustive: false, min_distinct: 1000, must_reach: vec![("surrogate_pairs_enumerated".into(), 2 * 1_048_576), ("utf32_scalars_enumerated".into(), 2 * 1_112_064), ("illformed_streams".into(), 10000), ("illformed_surrogate_pairs_enumerated".into(), 100000), ("translation_level_slice".into(), 1000), ("ascii_only_texts".into(), 20), ("detected_variants".into(), 500), ("YAML_SLICE_REENCODE_PATH".into(), 500)] },
         acc,
     )
 }
